@@ -85,6 +85,14 @@ KERNELS = {
     "ordered_inner_map_left_unique_partial": {"owner": "C10", "mutated": [4, 5]},
     "ordered_get_last_as_filter": {"owner": "C10"},
     "streaming_sort_partial": {"owner": "C10", "mutated": [0, 4, 5]},
+    # KT4B
+    "ordered_generate_journalling_indices": {"owner": "C17"},                  # (old_inds, new_inds); safe on every input
+    # typed lists: unique_result is a numba typed list of uint8 arrays, the three companions typed lists of int64 or None;
+    # returns None: the result is the four lists
+    "get_indexed_string_unique": {"owner": "C14", "mutated": [2, 3, 4, 5],
+                                  "decode": [None, "u8", "list_u8", "olist_i64", "olist_i64", "olist_i64"]},
+    "isin_indexed_string_speedup": {"owner": "C14", "decode": ["list_u8", None, "u8"]},
+    "safe_map_indexed_values": {"owner": "C04", "decode": [None, "u8", None, None, "ou8"]},
 }
 C08_NOSRC = ("apply_spans_count", "apply_spans_index_of_first", "apply_spans_index_of_last")
 C08_REDUCE = ("apply_spans_count", "apply_spans_first", "apply_spans_last", "apply_spans_max", "apply_spans_min",
@@ -375,6 +383,10 @@ def derive_c04(case):
     if op == "next_map_subchunk" and ints_only(case["map"]):
         return gcase("next_map_subchunk", [arr(case["map"]), {"int": case["sm"]}, {"int": case["inv"]}, {"int": case["cs"]}],
                      unsafe=case["sm"] < 0, fuel=2 * len(case["map"]) + 8, _from="C04")
+    if op == "safe_map_indexed_values" and ints_only(case["map"]):
+        idx, vals = _encode_col([list(e.encode()) for e in case["entries"]])
+        return safe_map_indexed_gcase(idx, vals, case["map"], case["filter"],
+                                      None if case["empty"] is None else list(case["empty"]), "C04")
     if op == "extents" and ints_only(case["map"]):
         s_, e_ = case["start"], case["end"]
         return gcase("get_valid_value_extents", [arr(case["map"]), {"int": s_}, {"int": e_}, {"int": case["inv"]}],
@@ -460,9 +472,50 @@ def random_c04_safe_map(rng):
     return gcase("safe_map_values", [arr(src), arr(m), barr(filt), empty], unsafe=not safe, _from="random")
 
 
+def safe_map_indexed_safe(idx, vals, m, filt):
+    """every subscript of safe_map_indexed_values is in range and every slice assignment copies equally long slices"""
+    if len(filt) < len(m):
+        return False
+    for k, f in zip(m, filt):
+        if f and not (0 <= k and k + 1 < len(idx) and 0 <= idx[k] <= idx[k + 1] <= len(vals)):
+            return False
+    return True
+
+
+def safe_map_indexed_gcase(idx, vals, m, filt, empty, frm):
+    return gcase("safe_map_indexed_values", [arr(idx), arr(vals), arr(m), barr(filt), NONE if empty is None else arr(empty)],
+                 unsafe=not safe_map_indexed_safe(idx, vals, m, filt), _from=frm)
+
+
+def random_c04_safe_map_indexed(rng):
+    """an indexed string column (offsets, bytes), a row map and its filter as the merge code builds them; sometimes malformed:
+    row numbers out of range / negative, a filter that is too short, offsets that decrease or run past the values"""
+    rows = [[rng.randrange(0, 256) for _ in range(rng.choice([0, 0, 1, 2, 3, 5]))] for _ in range(rng.choice([0, 1, 2, 4, 7]))]
+    idx = [0]
+    for r in rows:
+        idx.append(idx[-1] + len(r))
+    vals = [b for r in rows for b in r]
+    n = rng.choice([0, 1, 2, 3, rng.randrange(1, 12)])
+    bad = rng.random() < 0.15
+    nr = len(rows)
+    m = [rng.randrange(-nr if bad else 0, nr + (2 if bad else 0)) if nr else rng.choice([0, -1]) for _ in range(n)]
+    filt = [rng.random() < 0.65 and nr > 0 for _ in range(n if rng.random() < 0.9 else rng.randrange(0, n + 1))]
+    r = rng.random()
+    if r < 0.07 and len(idx) > 2:
+        k = rng.randrange(1, len(idx))
+        idx[k] = max(0, idx[k] - rng.randrange(1, 4))          # offsets that decrease somewhere
+    elif r < 0.14 and vals:
+        vals = vals[:rng.randrange(0, len(vals))]               # offsets beyond the values
+    empty = None if rng.random() < 0.5 else [rng.randrange(0, 256) for _ in range(rng.choice([0, 1, 3]))]
+    return safe_map_indexed_gcase(idx, vals, m, filt, empty, "random")
+
+
 def random_c04(rng, n_cases):
     out = []
     for t in range(n_cases):
+        if t % 7 == 6:
+            out.append(random_c04_safe_map_indexed(rng))
+            continue
         if t % 6 == 5:
             out.append(random_c04_safe_map(rng))
             continue
@@ -786,10 +839,39 @@ def random_c17_merge_indexed(rng):
                  unsafe=not merge_indexed_safe(om, nm, tk, oi, ni, capI), fuel=len(oi) + no + 4, _from="random")
 
 
+def random_c17_indices(rng):
+    """ordered_generate_journalling_indices: sorted old keys with runs / strictly sorted snapshot keys (the callers' shape),
+    and keys outside the precondition (unsorted, repeated snapshot keys, negative keys, empty sides) — the kernel subscripts
+    inside its arrays on EVERY input (C17Gen.gen_journal_indices_safe), so no call is `_unsafe`"""
+    r = rng.random()
+    lo = -3 if rng.random() < 0.2 else 0
+    old = sorted(rng.randrange(lo, 7) for _ in range(rng.randrange(0, 12)))
+    new = sorted(rng.sample(range(lo, 9), rng.randrange(0, 7)))
+    if r < 0.15 and len(old) > 1:
+        rng.shuffle(old)
+    elif r < 0.3 and new:
+        new.insert(rng.randrange(len(new) + 1), rng.choice(new))
+    elif r < 0.4:
+        new = [rng.randrange(lo, 7) for _ in range(rng.randrange(0, 7))]
+    return gcase("ordered_generate_journalling_indices", [arr(old), arr(new)], _from="random")
+
+
+def derive_c17(case):
+    if case.get("op") != "journal_kernels":
+        return None
+    old, new = case.get("old"), case.get("new")
+    if not all(isinstance(x, int) and not isinstance(x, bool) for x in list(old) + list(new)):
+        return None
+    return gcase("ordered_generate_journalling_indices", [arr(old), arr(new)], _from="C17")
+
+
 def random_c17(rng, n_cases):
     out = []
     for t in range(n_cases):
-        kind = t % 5
+        kind = t % 6
+        if kind == 5:
+            out.append(random_c17_indices(rng))
+            continue
         if kind == 4:
             out.append(random_c17_merge_indexed(rng))
             continue
@@ -1113,8 +1195,84 @@ def random_c14(rng, n_cases):
     return out
 
 
-DERIVE = {"C14": derive_c14, "C08": derive_c08, "C09": derive_c09, "C04": derive_c04, "C16": derive_c16}
-RANDOM = {"C14": random_c14, "C06": random_c06, "C16": random_c16, "C08": random_c08, "C09": random_c09, "C04": random_c04, "C03": random_c03, "C17": random_c17, "C19": random_c19}
+def _encode_col(col):
+    idx = [0]
+    for r in col:
+        idx.append(idx[-1] + len(r))
+    return idx, [b for r in col for b in r]
+
+
+def unique_gcase(idx, vals, res, ui, uv, uc, frm):
+    """`_unsafe`: `unique_counts[j]` leaves the list when the caller's counts are shorter than its uniques"""
+    opt = lambda x: NONE if x is None else arr(x)
+    return gcase("get_indexed_string_unique", [arr(idx), arr(vals), arr2(res), opt(ui), opt(uv), opt(uc)],
+                 unsafe=uc is not None and len(uc) < len(res), _from=frm)
+
+
+def isin_gcase(tests, idx, vals, frm):
+    return gcase("isin_indexed_string_speedup", [arr2(tests), arr(idx), arr(vals)], _from=frm)
+
+
+def derive_c14_all(case):
+    op = case.get("op")
+    if op == "compare_arrays":
+        return derive_c14(case)
+    if op == "unique_indexed":
+        idx, vals = _encode_col([list(bytes.fromhex(h)) for h in case["col"]])
+        ri, rv, rc = [bool(f) for f in case["flags"]]
+        return unique_gcase(idx, vals, [], [] if ri else None, [] if rv else None, [] if rc else None, "C14")
+    if op == "isin_indexed" and case.get("tests"):
+        tests = sorted(bytes.fromhex(t) for t in case["tests"] if t is not None)
+        if not tests:
+            return None
+        idx, vals = _encode_col([list(bytes.fromhex(h)) for h in case["col"]])
+        return isin_gcase([list(t) for t in tests], idx, vals, "C14")
+    return None
+
+
+def random_c14_all(rng, n_cases):
+    """compare_arrays as before; get_indexed_string_unique on columns with repeated rows / rows of equal length / empty rows,
+    every combination of the three optional lists, sometimes lists that are not empty at the call; isin_indexed_string_speedup
+    on sorted test sets (the caller's shape) and on unsorted / repeated ones (the binary search still stays inside the list)"""
+    out = []
+    alpha = [0, 1, 97, 98, 255]
+    for t in range(n_cases):
+        kind = t % 3
+        if kind == 0:
+            out.extend(random_c14(rng, 1))
+            continue
+        pool = [[rng.choice(alpha) for _ in range(rng.choice([0, 1, 1, 2, 2, 3]))] for _ in range(rng.randrange(1, 6))]
+        col = [list(rng.choice(pool)) for _ in range(rng.choice([0, 1, 2, 3, 5, 8, 12]))]
+        idx, vals = _encode_col(col)
+        r = rng.random()
+        if r < 0.06 and len(idx) > 2:
+            k = rng.randrange(1, len(idx))
+            idx[k] = max(0, idx[k] - rng.randrange(1, 3))       # offsets that decrease somewhere: slices clamp, lengths go negative
+        elif r < 0.12 and vals:
+            vals = vals[:rng.randrange(0, len(vals))]            # offsets beyond the values: slices clamp
+        elif r < 0.15:
+            idx = []                                             # `range(-1)`
+        if kind == 1:
+            ri, rv, rc = rng.random() < 0.5, rng.random() < 0.5, rng.random() < 0.5
+            res, ui, uv, uc = [], ([] if ri else None), ([] if rv else None), ([] if rc else None)
+            if rng.random() < 0.12:
+                # lists that already hold entries (never the case for the public caller)
+                res = [list(rng.choice(pool)) for _ in range(rng.randrange(1, 3))]
+                ui = None if ui is None else [rng.randrange(0, 5) for _ in range(rng.randrange(0, 3))]
+                uv = None if uv is None else [rng.randrange(0, 5) for _ in range(rng.randrange(0, 3))]
+                uc = None if uc is None else [rng.randrange(1, 4) for _ in range(rng.randrange(0, 4))]
+            out.append(unique_gcase(idx, vals, res, ui, uv, uc, "random"))
+        else:
+            tests = [list(rng.choice(pool)) if rng.random() < 0.7 else [rng.choice(alpha) for _ in range(rng.randrange(0, 4))]
+                     for _ in range(rng.choice([0, 1, 2, 3, 4, 7]))]
+            if rng.random() < 0.8:
+                tests = sorted(set(tuple(x) for x in tests))
+            out.append(isin_gcase([list(x) for x in tests], idx, vals, "random"))
+    return out
+
+
+DERIVE = {"C14": derive_c14_all, "C08": derive_c08, "C09": derive_c09, "C04": derive_c04, "C16": derive_c16, "C17": derive_c17}
+RANDOM = {"C14": random_c14_all, "C06": random_c06, "C16": random_c16, "C08": random_c08, "C09": random_c09, "C04": random_c04, "C03": random_c03, "C17": random_c17, "C19": random_c19}
 
 
 # ----------------------------------------------------------------------------------------------------------------------
@@ -1341,6 +1499,27 @@ def _decode(np, a):
     return None
 
 
+def _decode_as(np, a, kind):
+    """arguments whose numba type is not the default int64 array: uint8 arrays, typed lists (of uint8 arrays / of int64)"""
+    import numba.typed as nt
+    import numba.core.types as nct
+    if "none" in a:
+        return None
+    if kind in ("u8", "ou8"):
+        return np.array(a["arr"], dtype=np.uint8)
+    if kind == "list_u8":
+        xs = nt.List.empty_list(item_type=nct.uint8[:])
+        for r in a["arr2"]:
+            xs.append(np.array(r, dtype=np.uint8))
+        return xs
+    if kind == "olist_i64":
+        xs = nt.List.empty_list(item_type=nct.int64)
+        for v in a["arr"]:
+            xs.append(int(v))
+        return xs
+    raise ValueError(kind)
+
+
 def _canon(np, r):
     if isinstance(r, tuple):
         return [_canon(np, x) for x in r]
@@ -1363,7 +1542,8 @@ def impl(case):
         return {"skipped": "a call that may subscript out of range is not executed in the compiled mode"}
     np, ops = e["np"], e["ops"]
     fn = getattr(ops, case["kernel"])
-    args = [_decode(np, a) for a in case["args"]]
+    dec = KERNELS.get(case["kernel"], {}).get("decode")
+    args = [_decode(np, a) if not dec or dec[k] is None else _decode_as(np, a, dec[k]) for k, a in enumerate(case["args"])]
     ret = fn(*args)
     ncomp = KERNELS.get(case["kernel"], {}).get("generator")
     if ncomp:
